@@ -26,7 +26,7 @@ CHECKS = {
          'DESIGN.md 5.1, 6/C05'),
  'C06': (True, 'model_checking',
          'TLA+ spec Framing (all chunkings as Feed interleavings) checked by TLC and bound to the real StreamFace.run via FramingTrace; RecvJunk inertness in NdnPit/NdnFib checked by TLC and bound by delivering a mutation corpus in random pipeline states of both front-ends and to the datagram handler',
-         'Framing: TLC enumerates packet sequences with 1/3/5/9-byte type and length forms, every truncation point and every way of cutting the stream into reads, checking that exactly the complete packets are delivered once, in order, never early, and that the reader stops at end of stream. The transition cover, every chunking x truncation of short streams and random chunkings of streams with real multi-byte lengths run on a real asyncio.StreamReader + StreamFace.run and are judged by TLC. Robustness: >2000 malformed / truncated / fragment / unknown / unaddressed byte strings are delivered through _receive of both front-ends in random PIT/FIB states (and to UdpFace.datagram_received); the trace is accepted only if the junk step changes nothing, raises nothing, and the untouched Interests still complete as the spec says.',
+         'Framing: TLC enumerates packet sequences with 1/3/5/9-byte type and length forms, every truncation point and every way of cutting the stream into reads, checking that exactly the complete packets are delivered once, in order, never early, and that the reader stops at end of stream. The transition cover, every chunking x truncation of short streams and random chunkings of streams with real multi-byte lengths run on a real asyncio.StreamReader + StreamFace.run and are judged by TLC; UnixFace and TcpFace are also run over loopback sockets against an in-process server (chunked writes, orderly close, RST) and their final state judged by the same trace module. Robustness: >2000 malformed / truncated / fragment / unknown / unaddressed byte strings are delivered through _receive of both front-ends in random PIT/FIB states (and to UdpFace.datagram_received); the trace is accepted only if the junk step changes nothing, raises nothing, and the untouched Interests still complete as the spec says; every second application runs with DEBUG logging so that the debug branches of the receive path are executed too.',
          PIPE_NOTE + ' Mutants of packets that address pending state are used only when the independent strict TLV reader finds them structurally malformed.',
          'DESIGN.md 5.2, 6/C06'),
  'C09': (True, 'model_checking',
@@ -36,7 +36,7 @@ CHECKS = {
          'DESIGN.md 5.4, 6/C09'),
  'C19': (True, 'model_checking',
          'TLA+ spec SegFetch checked exhaustively by TLC; TLC state-graph transition cover replayed on segment_fetcher; recorded executions validated by TLC (SegFetchTrace)',
-         'TLC visits every object shape x discovery answer x final marker x retry limit x loss/Nack/validation-failure pattern in the bound and checks InOrderOnce, DoneComplete, RetryBound, FailsIffExhausted, NoSkip, Terminates; every transition of that graph is then driven through the real generator on a virtual-time loop with the projection compared after each step, and larger random executions are accepted only if SegFetchTrace can explain every event.',
+         'TLC visits every object shape x discovery answer x final marker x retry limit x loss/Nack/validation-failure pattern in the bound and checks InOrderOnce, DoneComplete, RetryBound, FailsIffExhausted, NoSkip, Terminates; every transition of that graph is then driven through the real generator on a virtual-time loop with the projection compared after each step, and larger random executions (also two concurrent fetches on one application) are accepted only if SegFetchTrace can explain every event. Dimensions the model abstracts from are varied with the configuration (FinalBlockId on every / the last / the last two segments, an empty segment, default arguments, name as str / list / wire). SegFetchInd is an inductive invariant discharged by Apalache for unbounded sizes and SegFetchRef a refinement checked by TLC.',
          'Trusted: TLC, the virtual-time loop, the harness producer. Bounded: <=4 segments/3 retries exhaustively, <=12 segments/5 retries in traces.',
          'DESIGN.md 6/C19'),
  'C20': (True, 'model_checking',
@@ -60,7 +60,7 @@ CHECKS.update({
          'DESIGN.md 5.3, 6/C02'),
  'C10': (True, 'model_checking',
          'TLA+ specs NdnPit (envelope/reason parameters) and NdnFib (PIT-token echo) checked by TLC; covers and random schedules with envelopes built by an independent NDNLPv2 writer executed on both front-ends and validated by TLC; LP codec round trips against the strict reader',
-         'In NdnPit a packet has the same successor whatever envelope carries it (bare, LpPacket, LpPacket with optional and unknown headers), a Nack completes exactly the pending Interests with the same full name with precisely its reason, fragments are junk; in NdnFib every reply is an envelope carrying the Interest\'s token (bare without token). The real front-ends are driven with envelopes produced by the harness\' own writer: reasons 0 (also as an empty Nack header), 50, 150, 2^32+5, 2^64-1, tokens of length 0/1/8/32/33, fragmented envelopes around matching Data, several token-bearing Interests answered in any order; the recorded traces must be behaviours of the specs.',
+         'In NdnPit a packet has the same successor whatever envelope carries it (bare, LpPacket, LpPacket with optional and unknown headers), a Nack completes exactly the pending Interests with the same full name with precisely its reason, fragments are junk; in NdnFib every reply is an envelope carrying the Interest\'s token (bare without token). The real front-ends are driven with envelopes produced by the harness\' own writer: reasons 0 (also as an empty Nack header), 50, 150, 2^32+5, 2^64-1, tokens of length 0/1/8/32/33, fragmented envelopes around matching Data, several token-bearing Interests answered in any order, known NDNLPv2 headers (NextHopFaceId, CachePolicy, TxSequence, NonDiscovery) and a PIT token on received envelopes, Nack-headed envelopes around Data; reply envelopes must have the Fragment last; the recorded traces must be behaviours of the specs.',
          PIPE_NOTE + ' Token clause decided on appv2 only (the legacy front-end has no reply callback).',
          'DESIGN.md 5.1, 6/C10'),
  'C16': (True, 'model_checking',
